@@ -291,6 +291,54 @@ def p3_loops(ck, ctx):
     lines_loop = any(any(ex.term(x)["k"] == "call" and is_iter_next(callee_name(ex.term(x))) and "io::Lines" in callee_name(ex.term(x)) for x in cfg.natural_loop(ex, be)) for be in outer)
     ck.req(lines_loop, "P3.command_loop", "Client::exec", ex.where(), "the command loop does not consume one stdin line per iteration")
     ck.extra["loops_checked"] = n
+    # P4: no recursion in the text layer.  A reader that calls itself (directly or through helpers / closures) uses one stack frame per
+    # step of the input; a long enough token then overflows the stack, which aborts the process (not even a catchable panic).
+    cg = CallGraph(prog)
+    scope = set(ctx["parser_scope"]) | set(ctx["uci_scope"])
+    edges = {n_: {e for e in cg.edges.get(n_, ()) if e in scope} for n_ in scope}
+    index, low, on, stack, sccs, counter = {}, {}, set(), [], [], [0]
+
+    def strong(v):
+        work = [(v, iter(sorted(edges[v])))]
+        index[v] = low[v] = counter[0]
+        counter[0] += 1
+        stack.append(v)
+        on.add(v)
+        while work:
+            node, it_ = work[-1]
+            adv = False
+            for w in it_:
+                if w not in index:
+                    index[w] = low[w] = counter[0]
+                    counter[0] += 1
+                    stack.append(w)
+                    on.add(w)
+                    work.append((w, iter(sorted(edges[w]))))
+                    adv = True
+                    break
+                elif w in on:
+                    low[node] = min(low[node], index[w])
+            if adv:
+                continue
+            work.pop()
+            if work:
+                low[work[-1][0]] = min(low[work[-1][0]], low[node])
+            if low[node] == index[node]:
+                comp = []
+                while True:
+                    w = stack.pop()
+                    on.discard(w)
+                    comp.append(w)
+                    if w == node:
+                        break
+                sccs.append(comp)
+    for v in sorted(scope):
+        if v not in index:
+            strong(v)
+    rec = [c for c in sccs if len(c) > 1 or c[0] in edges[c[0]]]
+    ck.req(not rec, "P4.no_recursion", "text layer", "" if not rec else prog.body(sorted(rec[0])[0]).where(),
+           "the text layer is recursive (%s): the stack depth follows the input, a long token overflows the stack and aborts the process"
+           % [sorted(x.split("::")[-1] for x in c)[:3] for c in rec][:2], "%d functions, call graph acyclic" % len(scope))
 
 
 for _f in (setup, p1_inventory, inv_constructions, ak_array_keys, si_success_implies):
